@@ -148,12 +148,12 @@ def install():
 
     def kv_node_parses(keypath, child_node_hash, result):
         got = raw["parse_node"](result)
-        return _verdict("encode_kv_node", tuple(got) == (1, keypath, child_node_hash),
+        return _verdict("encode_kv_node", tuple(got) == (0, keypath, child_node_hash),
                         lambda: "parse_node(encode_kv_node(%s, %s)) = %r" % (_h(keypath), _h(child_node_hash), got))
 
     def branch_node_parses(left_child_node_hash, right_child_node_hash, result):
         got = raw["parse_node"](result)
-        return _verdict("encode_branch_node", tuple(got) == (0, left_child_node_hash, right_child_node_hash),
+        return _verdict("encode_branch_node", tuple(got) == (1, left_child_node_hash, right_child_node_hash),
                         lambda: "parse_node(encode_branch_node(..)) = %r" % (got,))
 
     def leaf_node_parses(value, result):
